@@ -1308,6 +1308,7 @@ def _clean_llvm_msg(msg: str, ir: str) -> tuple[str, str]:
                                           "ptr"):
                 opc = mm.group(1)
                 break
+    first = re.sub(r"'(?:i\d+|float|double|half|ptr)'", "'T'", first)
     first = re.sub(r'%"?[\w.]+"?', "%v", first)
     first = re.sub(r"\d+", "N", first)
     return first[:160], opc
@@ -1518,11 +1519,11 @@ def _localize(plan: dict, fi: int, bits: list, ir: str = "") -> dict:
             m.verify()
         except Exception:
             continue
-        st_, ir = _translate(m)
+        st_, pir = _translate(m)
         if st_ != "ok":
             continue
         for opt in (0, 1):
-            v = _compare(pp, [rows], _native(pp, ir, [rows], opt))
+            v = _compare(pp, [rows], _native(pp, pir, [rows], opt))
             if v is not None and v[0] in ("wrong", "crash"):
                 return _desc(o)
     audit = _flag_audit(plan, ir) if ir else None
@@ -1547,7 +1548,7 @@ def _localize(plan: dict, fi: int, bits: list, ir: str = "") -> dict:
     return {"op": "unknown"}
 
 
-def oracle(h, recipe) -> None:
+def oracle(h, recipe, label: str | None = None) -> None:
     plan = normalize(recipe)
     ft = features(plan)
     module = to_xdsl(plan)
@@ -1557,7 +1558,8 @@ def oracle(h, recipe) -> None:
         text, module = roundtrip(module)
         module.verify()
     nontrivial = ft["phi"] or ft["flag"] or ft["cast"]
-    h.case(recipe, nontrivial, label="multi_block" if ft["multi_block"] else "single_block")
+    h.case(recipe, nontrivial, label=label or ("multi_block" if ft["multi_block"] else "single_block"),
+           distinct=label == "unit")
     for k_, v_ in ft.items():
         if k_ != "_kinds" and v_:
             h.count("feat:" + k_)
@@ -1820,10 +1822,75 @@ def gen_recipe(seed: int) -> dict:
 
 
 # =============================================================================================
+# deterministic enumeration: every op kind x type x flag set as a one-op function, every idiom
+def _edge_inputs(t: str) -> list:
+    if t in FLOAT_T:
+        vals = [0, 1, 2, 5, 22, 20, 21, 23, 25, 7, 8, 27, 24, 3, 30, 12]     # indices into _FT
+    else:
+        w = INT_W[t]
+        m = (1 << w) - 1
+        vals = [0, 1, 2, 3, 4, 5, (m >> 1), (m >> 1) + 1, (m >> 1) + 2, m, m - 1, (1 << max(w - 2, 0)),
+                (1 << max(w - 2, 0)) + 5, 0x5555555555555555 & m, 0xAAAAAAAAAAAAAAAA & m, 7]
+    n = len(vals)
+    return [[vals[i], vals[(i * 3 + 1) % n], i & 1, vals[(i * 5 + 2) % n]] for i in range(n)]
+
+
+def unit_recipes() -> list:
+    out = []
+
+    def add(args, ret, op, opts=(0, 1)):
+        for opt in opts:
+            out.append({"kind": "prog", "opt": opt, "text": 0, "inputs": _edge_inputs(args[0]),
+                        "funcs": [{"args": list(args), "ret": ret, "layout": [],
+                                   "blocks": [{"params": [], "ops": [op], "term": {"k": "ret", "v": -1}}]}]})
+
+    ints = tuple(INT_W)
+    for op in INT_BIN:
+        nfl = 4 if op in BIN_OVF else 2 if op in BIN_EXACT + ("or",) else 1
+        for t in ints:
+            for f in range(nfl):
+                add([t, t], t, {"k": "bin", "op": op, "t": t, "a": 0, "b": 1, "f": f})
+    for p in ICMP:
+        for t in ints:
+            add([t, t], "i1", {"k": "icmp", "p": p, "t": t, "a": 0, "b": 1})
+    for p in FCMP:
+        for t in FLOAT_T:
+            add([t, t], "i1", {"k": "fcmp", "p": p, "t": t, "a": 0, "b": 1})
+    for op in FBIN:
+        for t in FLOAT_T:
+            for f in range(4):
+                add([t, t], t, {"k": "fbin", "op": op, "t": t, "a": 0, "b": 1, "f": f})
+    for op in CASTS:
+        for src in SCALARS:
+            for dst in SCALARS:
+                if cast_ok(op, src, dst):
+                    for f in range(4 if op == "trunc" else 2 if op == "zext" else 1):
+                        add([src], dst, {"k": "cast", "op": op, "t": src, "to": dst, "a": 0, "f": f})
+    for t in SCALARS:
+        add([t, t, "i1"], t, {"k": "select", "t": t, "c": 0, "a": 0, "b": 1})
+    for op in FUN1:
+        for t in FLOAT_T:
+            add([t], t, {"k": "fun1", "op": op, "t": t, "a": 0})
+    for t in FLOAT_T:
+        add([t, t], t, {"k": "fun2", "op": "copysign", "t": t, "a": 0, "b": 1})
+    for i in range(15):
+        ts = FLOAT_T if i == 14 else ("i16", "i32", "i64") if i in (11, 12) else \
+            ("i8", "i16", "i32") if i == 13 else ("i8", "i16", "i32", "i64")
+        for t in ts:
+            for f in range(4):
+                ret = "i1" if i in (0, 1, 2, 13, 14) else t
+                add([t, t], ret, {"k": "idiom", "id": i, "t": t, "a": 0, "b": 1, "f": f}, opts=(1,))
+    return out
+
+
 def checks(h) -> None:
     n = h.scale(600, 15000)
     strat = st.integers(min_value=0, max_value=(1 << 62)).map(gen_recipe)
     try:
+        for i, r in enumerate(unit_recipes()):
+            if i % h.nshards == h.shard:
+                oracle(h, r, label="unit")
+                h.sub_checks["unit"] += 1
         h.hyp("prog", strat, lambda r: oracle(h, r), max_examples=n, shrink_budget_s=40.0)
     finally:
         _WORKER.stop()
